@@ -125,8 +125,14 @@ def strategy(ctx):
                 return ['bytes', bytes(data).hex()]
             if p in WIDE_ELEMS:
                 L = draw(st.integers(0, top))
-                return ['str', ''.join(chr(draw(st.sampled_from([0x41, 0x7a, 0xe9, 0x20ac, 0x1, 0xffff])))
-                                       for _ in range(L))]
+                # (for char16_t an astral character takes two units: the string may then exactly fill, or
+                # overflow, an array that its number of characters would fit)
+                txt = ''.join(chr(draw(st.sampled_from([0x41, 0x7a, 0xe9, 0x20ac, 0x1, 0xffff, 0x1f600,
+                                                        0x10000, 0x41, 0x10ffff])))
+                              for _ in range(L))
+                while (clean or flexible) and len(_units(txt, p)) > top:
+                    txt = txt[:-1]
+                return ['str', txt]
             return None
 
         def g_init(t, depth, clean, allow_cdata=True):
@@ -237,6 +243,14 @@ def strategy(ctx):
 # ---------------------------------------------------------------------------
 # python values for cffi, from the initialiser tree
 # ---------------------------------------------------------------------------
+
+def _units(s, elem_name):
+    """the array items a str initialiser occupies: UTF-16 units for char16_t, code points otherwise"""
+    if elem_name == 'char16_t':
+        b = s.encode('utf-16-le', 'surrogatepass')
+        return [chr(int.from_bytes(b[i:i + 2], 'little')) for i in range(0, len(b), 2)]
+    return list(s)
+
 
 class ModelReject(Exception):
     """the reference model says this initialiser is not valid for the type"""
@@ -427,7 +441,7 @@ class Env(object):
                     self._leaf_store(sub, len(data), b'\0' if p == 'char' else 0)
                 return
             if k == 'str' and p in WIDE_ELEMS:
-                s = init[1]
+                s = _units(init[1], p)
                 if n is not None and len(s) > n:
                     raise ModelReject('str too long')
                 if n is None:
@@ -601,7 +615,7 @@ def _one(ffi, unit, w, spec, ctx, group_has_known):
             elif k == 'bytes':
                 n_arr = len(bytes.fromhex(init[1])) + 1
             elif k == 'str':
-                n_arr = len(init[1]) + 1
+                n_arr = len(_units(init[1], agg.strip_quals(target[1]) if target[0] == 'prim' else '')) + 1
             else:
                 raise HarnessError('bad arr[] init %r' % (init,))
         T = '%s[%s]' % (X, n_arr if mode == 'arr' else '')
@@ -670,7 +684,7 @@ def _one(ffi, unit, w, spec, ctx, group_has_known):
             elif fe[0] == 'bytes':
                 cnt = len(bytes.fromhex(fe[1])) + 1
             elif fe[0] == 'str':
-                cnt = len(fe[1]) + 1
+                cnt = len(_units(fe[1], fct.type.item.cname)) + 1
             else:
                 cnt = 0
             size_needed = max(base_size, fct.offset + cnt * ffi.sizeof(fct.type.item))
@@ -845,8 +859,63 @@ def _nf_init(v, form, n):
     return cur
 
 
+def _exact_fill_sweep(ctx):
+    """strings that fill a character array field exactly (no room for a terminator) or leave one item, next
+    to other fields, given as dict initialisers in every key order and as field assignments in every order:
+    each leaf must end up where the layout says and nothing else may be written"""
+    import cffi, itertools, struct as _st
+    ffi = cffi.FFI()
+    kinds = [('char', 1), ('wchar_t', 4), ('char16_t', 2), ('char32_t', 4)]
+    ffi.cdef('\n'.join('struct xf_%s_%d { %s a[%d]; uint16_t b; %s c[%d]; uint16_t d; };' % (T, N, T, N, T, N)
+                       for T, _ in kinds for N in (1, 2, 3, 4)))
+    pool = ['x', 'xy', 'xyz', 'wxyz', '\U0001f600', 'x\U0001f600', '\U0001f600y', '\U0001f600\U00010000',
+            '\u20ac', '\u20acx\xe9', 'a\U0010ffffb', '']
+    n_eval = 0
+    for T, usz in kinds:
+        for N in (1, 2, 3, 4):
+            S = 'struct xf_%s_%d' % (T, N)
+            size = ffi.sizeof(S)
+            offs = dict((f, ffi.offsetof(S, f)) for f in 'abcd')
+
+            def units(txt):
+                if T == 'char':
+                    return [ord(ch) for ch in txt if ord(ch) < 128]
+                return [ord(u) for u in _units(txt, T)]
+            cands = [t for t in pool if T != 'char' or all(ord(ch) < 128 for ch in t)]
+            fits = [t for t in cands if len(units(t)) in (N, N - 1)]
+            for sa in fits:
+                sc = fits[-1]
+                values = {'a': sa.encode('ascii') if T == 'char' else sa, 'b': 0xBEEF,
+                          'c': sc.encode('ascii') if T == 'char' else sc, 'd': 0x1234}
+                want = bytearray(size)
+                for f, txt in (('a', sa), ('c', sc)):
+                    for i, u in enumerate(units(txt)):
+                        want[offs[f] + i * usz:offs[f] + (i + 1) * usz] = u.to_bytes(usz, 'little')
+                want[offs['b']:offs['b'] + 2] = _st.pack('<H', 0xBEEF)
+                want[offs['d']:offs['d'] + 2] = _st.pack('<H', 0x1234)
+                for order in itertools.permutations('abcd'):
+                    case = {'exact_fill': [T, N, sa, sc, ''.join(order)]}
+                    if hasattr(ctx, 'journal'):
+                        ctx.journal(case)
+                    init = dict((f, values[f]) for f in order)
+                    p = ffi.new(S + ' *', init)
+                    q = ffi.new(S + ' *')
+                    for f in order:
+                        setattr(q, f, values[f])
+                    for how, obj in (('ffi.new(dict)', p), ('field assignments', q)):
+                        got = bytes(ffi.buffer(obj))
+                        if got != bytes(want):
+                            ctx.fail('%s with %s in the order %s: memory is %s, expected %s'
+                                     % (S, how, ''.join(order), got.hex(), bytes(want).hex()), case=case,
+                                     a=ascii(sa), c=ascii(sc))
+                    n_eval += 1
+                ctx.note(['exact-fill', T, N, sa], True, ['exact-fill-sweep', 'exact-fill:' + T])
+    ctx.extra['exact_fill_sweep'] = n_eval
+
+
 def pre(ctx):
     import cffi
+    _exact_fill_sweep(ctx)
     variants = _nf_variants()
     text = '\n'.join(_nf_decls(v) for v in variants)
     ffis = {}
